@@ -48,7 +48,8 @@ Proof.
 Qed.
 
 (* ===================== items ===================== *)
-Definition item_ok (kind v : Z) : Prop := if kind =? 1 then Z.abs v < 2 ^ 53 else - 2 ^ 63 <= v < 2 ^ 63.
+Definition item_ok (kind v : Z) : Prop :=
+  if kind =? 1 then Z.abs v < 2 ^ 53 else if kind =? 3 then - 2 ^ 63 < v <= 2 ^ 63 else - 2 ^ 63 <= v < 2 ^ 63.
 
 Lemma i64_roundtrip v : - 2 ^ 63 <= v < 2 ^ 63 -> dec_i64 (enc_i64 v) = v.
 Proof.
@@ -102,11 +103,13 @@ Proof.
   unfold item_ok, item_enc, item_dec. destruct (kind =? 1).
   - intro H. split; [apply le_length|]. destruct (Z.eq_dec v 0) as [->|NZ]; [reflexivity|].
     destruct (dbl_int_bits v NZ H) as [A B]. rewrite from_le_le by (change (256 ^ Z.of_nat 8) with (2 ^ 64); exact B). exact A.
-  - intro H. split; [apply le_length|]. now rewrite i64_roundtrip.
+  - destruct (kind =? 3).
+    + intro H. split; [apply le_length|]. rewrite i64_roundtrip by lia. f_equal. lia.
+    + intro H. split; [apply le_length|]. now rewrite i64_roundtrip.
 Qed.
 
 Lemma item_enc_length kind v : length (item_enc kind v) = 8%nat.
-Proof. unfold item_enc, enc_i64. destruct (kind =? 1); apply le_length. Qed.
+Proof. unfold item_enc, enc_i64. destruct (kind =? 1); [|destruct (kind =? 3)]; apply le_length. Qed.
 
 Lemma take_items_enc kind : forall vs rest, Forall (item_ok kind) vs ->
   take_items kind (length vs) (flat_map (item_enc kind) vs ++ rest) = Some (vs, rest).
